@@ -77,7 +77,7 @@ def race_run(ctx, jobs, rounds):
                        env=dict(os.environ, XJSH_CASE_TIMEOUT_MS="600000", GORACE="halt_on_error=0"))
     races = p.stderr.count("WARNING: DATA RACE")
     diffs, runs = [], 0
-    for line in p.stdout.splitlines():
+    for line in p.stdout.split("\n"):
         if line.strip():
             r = json.loads(line)
             if "obs" in r:
